@@ -4,6 +4,8 @@ import (
 	"fmt"
 	"strings"
 
+	"github.com/tigerwill90/fox"
+
 	"verif/harness/model"
 	"verif/harness/sim"
 	"verif/harness/world"
@@ -12,7 +14,7 @@ import (
 func init() {
 	register(&Prop{
 		ID: "C07", Level: "exploration",
-		Rule: "one case = two real routers with the same options: A is driven through a seeded mutation history (inserts, updates, deletes, truncations, re-insertions, committed/aborted/panicked transactions, copy cache capacity drawn); B is fresh and receives A's final set in a random order (small sets: a random permutation). Every probe derived from the patterns involved is sent to both through Lookup (route, parameters, tsr flag), Reverse and ServeHTTP (handler, parameters, status, Allow set, Location) and the answers must be equal; no reference model takes part in the comparison. Any difference is a violation (in 80 000 exploratory runs equal sets always produced equal answers, including the C08 known findings, which are a function of the set). Non-trivial: A's history contains at least one effective delete or truncate and the final set has at least 3 routes; distinct = hash of (A's history, B's order).",
+		Rule: "one case = two real routers with the same options: A is driven through a seeded mutation history (inserts, updates, deletes, truncations, re-insertions, committed/aborted/panicked transactions, copy cache capacity drawn); B is fresh and receives A's final set in a random order (small sets: a random permutation), one time in three inside a single write transaction which is asked the probes (Lookup, Reverse) before it commits. Every probe derived from the patterns involved is sent to both through Lookup (route, parameters, tsr flag), Reverse and ServeHTTP (handler, parameters, status, Allow set, Location) and the answers must be equal; no reference model takes part in the comparison. Any difference is a violation (in 80 000 exploratory runs equal sets always produced equal answers, including the C08 known findings, which are a function of the set). Non-trivial: A's history contains at least one effective delete or truncate and the final set has at least 3 routes; distinct = hash of (A's history, B's order).",
 		Run:  runC07, Quick: 64000, Thorough: 9600000,
 		Real: commonReal, Stub: commonStub,
 		Domain: []string{"as C01/C08; both routers are built in the same process with the same generated options"},
@@ -48,6 +50,16 @@ func runC07(src sim.Source, o Opts) *Result {
 		j := src.Intn("shuffle", i+1)
 		routes[i], routes[j] = routes[j], routes[i]
 	}
+	// one time in three B receives the set inside one write transaction; the transaction - holding the same set before
+	// its commit - must answer lookups like A
+	var bw world.Writer = wb.R
+	var btxn *fox.Txn
+	if src.Intn("binsidetxn", 3) == 2 {
+		btxn = wb.R.Txn(true)
+		defer btxn.Abort()
+		bw = btxn
+		res.inc("runs_with_B_filled_in_one_transaction")
+	}
 	for _, r := range routes {
 		ts := 3
 		if r.IgnoreTS {
@@ -55,14 +67,15 @@ func runC07(src sim.Source, o Opts) *Result {
 		} else if r.RedirectTS {
 			ts = 2
 		}
-		if _, err := wb.R.Handle(r.Method, r.Pattern, world.Handler(r.Tag), world.FoxOpts(r.Tag, world.RouteOpt{TS: ts})...); err != nil {
+		if _, err := bw.Handle(r.Method, r.Pattern, world.Handler(r.Tag), world.FoxOpts(r.Tag, world.RouteOpt{TS: ts})...); err != nil {
 			res.fail("C07/insert-order", "fresh router rejects %s %s of A's final set (order %v): %v", r.Method, r.Pattern, order, err)
 			return res
 		}
 		order = append(order, r.Method+" "+r.Pattern)
 	}
 	nprobes := 6 + src.Intn("nprobes", 14)
-	for i := 0; i < nprobes && !res.failed(); i++ {
+	var probes []world.Probe
+	for i := 0; i < nprobes; i++ {
 		p := world.GenProbe(src, rr.pool, append([]string{"OPTIONS"}, methods3...))
 		if src.Intn("toggle", 3) == 0 && len(p.Path) > 1 {
 			if strings.HasSuffix(p.Path, "/") {
@@ -73,6 +86,24 @@ func runC07(src sim.Source, o Opts) *Result {
 		}
 		if src.Intn("optionsstar", 8) == 0 {
 			p = world.Probe{Method: "OPTIONS", Path: "*"} // server-wide OPTIONS: lists every method that has routes
+		}
+		probes = append(probes, p)
+	}
+	if btxn != nil {
+		for _, p := range probes {
+			res.Checks++
+			fa := fmt.Sprintf("lookup=%s reverse=%s", world.ObsLookup(rr.w.R, p), world.ObsReverse(rr.w.R, p))
+			fb := fmt.Sprintf("lookup=%s reverse=%s", world.ObsLookup(btxn, p), world.ObsReverse(btxn, p))
+			if fa != fb {
+				res.fail("C07/history-dependent", "%s %s%s: router A (history) answers %s; the write transaction that holds the same set on fresh router B answers %s; set: %s; A's history: %v; B's order: %v", p.Method, p.Host, p.Path, fa, fb, setString(rr.set, p.Method), rr.history, order)
+				break
+			}
+		}
+		btxn.Commit()
+	}
+	for _, p := range probes {
+		if res.failed() {
+			break
 		}
 		res.Checks++
 		la, lb := world.ObsLookup(rr.w.R, p), world.ObsLookup(wb.R, p)
